@@ -32,8 +32,8 @@ EXCHANGES: Tuple[str, ...] = ("Coinbase", "Kraken", "BlockFi", "Ledger")
 HOLDERS: Tuple[str, ...] = ("Alice", "Bob")
 ASSETS: Tuple[str, ...] = ("AAA", "BBB", "CCC")
 
-# UTC offsets in minutes: -12, -8, 0, +5:30, +5:45, +9, +14
-OFFSETS: Tuple[int, ...] = (-720, -480, 0, 330, 345, 540, 840)
+# UTC offsets in minutes: -12, -9:30, -8, -3:30, 0, +5:30, +5:45, +9, +14 (negative offsets with non-zero minutes included)
+OFFSETS: Tuple[int, ...] = (-720, -570, -480, -210, 0, 330, 345, 540, 840)
 
 Q11 = Decimal("0.00000000001")
 TS_FORMAT = "%Y-%m-%d %H:%M:%S.%f %z"
@@ -58,6 +58,27 @@ def fmt_ts(instant: datetime, offset_min: int) -> str:
 
 def parse_ts(text: str) -> datetime:
     return datetime.strptime(text, TS_FORMAT)
+
+
+def render_ts(text: str) -> str:
+    """The same instant and UTC offset as the canonical text, written the way different exchanges export timestamps: the
+    canonical form, strict ISO 8601 with T and a colon in the offset, Z for UTC, no fractional part when it is zero. The
+    style is a function of the text (replayable)."""
+    import zlib
+
+    moment = parse_ts(text)
+    style = zlib.crc32(text.encode()) % 5
+    if style == 0:
+        return text
+    if style == 1:
+        return moment.isoformat()  # 2020-01-01T10:00:00.000001-03:30 (no space before the offset)
+    if style == 2:
+        iso = moment.isoformat()
+        return iso[:-6] + "Z" if moment.utcoffset() == timedelta(0) else iso
+    if style == 3:
+        return moment.strftime("%Y-%m-%d %H:%M:%S.%f%z") if moment.microsecond else moment.strftime("%Y-%m-%d %H:%M:%S %z")
+    offset = moment.strftime("%z")
+    return moment.strftime("%Y-%m-%dT%H:%M:%S.%f ") + offset[:3] + ":" + offset[3:]
 
 
 class Profile:
